@@ -211,14 +211,20 @@ CHECKS = {
     },
     "C10": {
         "bins": True,
-        "engines": lambda tier: [{"engine": "e2", "shards": 16, "args": {"schedules": 3000 if tier == "thorough" else 150, "free": 150 if tier == "thorough" else 10, "real": 40 if tier == "thorough" else 3}}],
+        "engines": lambda tier: [{"engine": "e2", "shards": 16, "args": {"schedules": 3000 if tier == "thorough" else 150, "free": 150 if tier == "thorough" else 10, "real": 40 if tier == "thorough" else 3}},
+                                 {"engine": "e3s", "shards": 4, "timeout_s": 3000, "args": {"cases": 60 if tier == "thorough" else 4, "rounds": 6, "threads": 6}}],
         "level": "exploration",
         "rule": "case = one execution of a scenario: a tower prepared by a model-checked sequential setup, then 2-3 real OS threads (chain thread delivering one "
                 "poll = 1 block, or a disconnection + 2 blocks; one or two API threads with register / add (new, same twice, update, late) / get_appointment / "
                 "get_subscription_info; 14 scenarios incl. a renewal racing with the block that purges that user) under the serialising PCT scheduler (every hooked lock acquisition/release/condvar wait is a scheduling point; 0-3 "
                 "priority change points) or free-running with seeded delays; and, unscheduled, against the real teosd binary (prepared database put in place, teosd "
                 "bootstrapped by its own main.rs, API threads as real HTTP/gRPC clients and the poll granted by the fake bitcoind after seeded 0-4 ms delays; the "
-                "counters real_teosd_matched_reference[scenario#k] show which sequential orders the real runs looked like). Oracle: (replies with all fields, final users/appointments/trackers rows, multiset "
+                "counters real_teosd_matched_reference[scenario#k] show which sequential orders the real runs looked like). A third engine (e3s) soaks the real binary: 6 client "
+                "threads x 6 rounds of 8-17 requests each over 2-3 users and 4-6 channels (register, add of 3 valid versions per channel with sizes around the slot "
+                "boundary, reads) while a block (2/3 of them with the dispute of a held channel) is mined and delivered; after every round (quiescent) it checks: every "
+                "request answered, memory == disk, per user slots granted by the registrations it saw succeed == available + occupied, exactly one row per acknowledged "
+                "(user, channel) holding an acknowledged version, every delivered dispute answered for every holder with a penalty the node was given, every receipt "
+                "verifies (counters soak_overlapping_request_pairs / soak_requests_overlapping_a_block_event show the concurrency actually obtained). Oracle: (replies with all fields, final users/appointments/trackers rows, multiset "
                 "of broadcasts) must equal the outcome of SOME sequential interleaving of the same operations (block events atomic), the sequential outcomes "
                 "being produced by scripted schedules on identical towers. non-trivial = execution with >= 1 context switch between threads; distinct = "
                 "distinct (scenario, schedule decision string).",
@@ -234,7 +240,8 @@ CHECKS = {
                                  {"engine": "e1", "shards": 16, "args": {"bias": "mixed", "cases": 1500 if tier == "thorough" else 80}},
                                  {"engine": "e1", "shards": 16, "args": {"bias": "chain", "cases": 800 if tier == "thorough" else 40}},
                                  {"engine": "e3", "shards": 4, "timeout_s": 3000, "args": {"bias": "mixed", "cases": 300 if tier == "thorough" else 12, "parallel": 4}},
-                                 {"engine": "e3", "shards": 4, "timeout_s": 3000, "args": {"bias": "chain", "cases": 12 if tier == "thorough" else 1, "parallel": 4, "memcheck": 1}}],
+                                 {"engine": "e3", "shards": 4, "timeout_s": 3000, "args": {"bias": "chain", "cases": 12 if tier == "thorough" else 1, "parallel": 4, "memcheck": 1}},
+                                 {"engine": "e3s", "shards": 4, "timeout_s": 3000, "args": {"cases": 60 if tier == "thorough" else 4, "rounds": 6, "threads": 6}}],
         "level": "exploration",
         "rule": "three monitors over two engines (plus e3: E1 histories against the real teosd binary, where a panic message on its output or an unexpected exit is the violation; a few of them with teosd running under valgrind memcheck - the bundled sqlite and libsecp256k1 are C - where any invalid access / use of uninitialised memory / fatal signal it reports is a violation; and the C10 scenarios run unscheduled against the real binary, where a request or block event that gets no answer in 20 s is the violation). (1) E2 scheduler: in every scheduled / free-running execution of the C10 scenarios the observer mediates every "
                 "tower lock; a state in which no tower thread is enabled (circular wait over lock owners, or everybody waiting) is detected deterministically and "
